@@ -74,7 +74,9 @@ class PlayerProbe(walk.Observer):
 def minimal_file(game, raw, engine=None):
     ext = GAMES[game]
     if engine is None:
-        engine = {'clientVersionFromXml': raw} if game != 'wowp' else {'clientVersion': raw}
+        # the field each game's loader reads, surrounded by the other version-like fields real headers carry, holding *other* (bundled) versions
+        engine = {'clientVersionFromExe': '0,8,0,0', 'clientVersion': 'World of Warplanes 2.1.20.0', 'gameVersion': '13,2,0,0', 'version': '0.10.0'}
+        engine.update({'clientVersionFromXml': raw} if game != 'wowp' else {'clientVersion': raw, 'clientVersionFromXml': '2,1,17,0'})
     return container.write_container(ext, json.dumps(engine, ensure_ascii=False).encode('utf-8'), [], b'')
 
 
